@@ -582,6 +582,13 @@ class Dict(dict, base.Symbolic, pg_typing.CustomTyping):
     return base.FieldUpdate(
         self.sym_path + key, target, field, old_value, new_value)
 
+  def _detach(self, old_value: Any) -> None:
+    """Detaches a removed value from the object tree."""
+    if (isinstance(old_value, base.TopologyAware)
+        and old_value.sym_parent is self._sym_parent_for_children()):
+      old_value.sym_setparent(None)
+      old_value.sym_setpath(utils.KeyPath())
+
   def _formalized_value(
       self, name: Union[str, int],
       field: Optional[pg_typing.Field],
@@ -780,7 +787,9 @@ class Dict(dict, base.Symbolic, pg_typing.CustomTyping):
           '\'popitem\' cannot be performed on a Dict with value spec.')
     if base.treats_as_sealed(self):
       raise base.WritePermissionError('Cannot pop item from a sealed Dict.')
-    return super().popitem()
+    key, value = super().popitem()
+    self._detach(value)
+    return key, value
 
   def clear(self) -> None:
     """Removes all the keys in current dict."""
@@ -788,7 +797,10 @@ class Dict(dict, base.Symbolic, pg_typing.CustomTyping):
       raise base.WritePermissionError('Cannot clear a sealed Dict.')
     value_spec = self._value_spec
     self._value_spec = None
+    old_values = list(self.sym_values())
     super().clear()
+    for old_value in old_values:
+      self._detach(old_value)
 
     if value_spec:
       self.use_value_spec(value_spec, self._allow_partial)
